@@ -4,9 +4,9 @@ package main
 // (0 inconclusive, 0 unsupported) on the unchanged tree.
 
 var commonAssume = []string{
-	"bufio.Scanner line splitting (ScanLines: split at \\n, one trailing \\r dropped, ErrTooLong over 64 KiB) is trusted, not executed; item texts do not end in \\r",
+	"bufio.Scanner line splitting replaced by its contract at tree level (ScanLines: split at \\n, one trailing \\r dropped; ErrTooLong over 64 KiB); the contract is itself discharged on the real bufio.Scanner at byte level by the L-scan jobs of C15; item texts do not end in \\r",
 	"fmt.Fprint/Sprintf modelled as concatenation + one Write on the destination",
-	"no memory model (data races are outside every claim)",
+	"sequentially consistent execution of one goroutine at a time; data races are decided only where a job says 'race' (happens-before detector, C11/C13)",
 	"opaque strings (names, branch strings, extensions, rows) are shorter than 2^30 bytes",
 }
 
@@ -41,7 +41,7 @@ func files(groups ...[]string) []string {
 func allChecks() []*Check {
 	cs := allChecksRaw()
 	for _, c := range cs {
-		confirm := map[string]string{"C10": "VerifC10Stress", "C11": "VerifC11Stress"}[c.ID]
+		confirm := map[string]string{"C10": "VerifC10Stress", "C11": "VerifC11Stress", "C13": "VerifC13Stress"}[c.ID]
 		if confirm != "" {
 			for i := range c.Quick {
 				c.Quick[i].Confirm = confirm
@@ -144,16 +144,20 @@ func allChecksRaw() []*Check {
 		},
 		{
 			ID:    "C13",
-			Files: files(filesProg, filesVFS, []string{"gtree/c13.go"}),
+			Files: files(filesProg, filesVFS, []string{"gtree/c13.go", "gtree/c13c.go", "gtree/c13c_native.go"}),
 			Quick: []Job{
 				gjf("C13.hist.n4", "VerifC13", 4, "C13.add", "C13.fn", "C13.idem", "C13.md", "C13.nil", "C13.end"),
 				gjf("C13.hist.n3.emptynames", "VerifC13", 13, "C13.add", "C13.fn", "C13.idem", "C13.end"),
+				{Name: "C13.conc.wyield", Pkg: "gtree", Entry: "VerifC13Conc", RealParse: true, RealScan: true, Race: true, RaceConfirm: "VerifC13Stress", Sched: "fifo-wyield", Expect: []string{"C13.conc.same", "C13.conc.noleak", "C13.conc.end"}},
 			},
 			Thorough: []Job{
+				{Name: "C13.conc.wyield", Pkg: "gtree", Entry: "VerifC13Conc", RealParse: true, RealScan: true, Race: true, RaceConfirm: "VerifC13Stress", Sched: "fifo-wyield", Expect: []string{"C13.conc.same", "C13.conc.noleak", "C13.conc.end"}},
+				{Name: "C13.conc.lifo-wyield", Pkg: "gtree", Entry: "VerifC13Conc", RealParse: true, RealScan: true, Race: true, RaceConfirm: "VerifC13Stress", Sched: "lifo-wyield", Expect: []string{"C13.conc.same", "C13.conc.noleak", "C13.conc.end"}},
+				{Name: "C13.conc.rnd8", Pkg: "gtree", Entry: "VerifC13Conc", RealParse: true, RealScan: true, Race: true, RaceConfirm: "VerifC13Stress", Sched: "rnd8", Expect: []string{"C13.conc.same", "C13.conc.noleak", "C13.conc.end"}},
 				gjf("C13.hist.n5", "VerifC13", 5, "C13.add", "C13.fn", "C13.idem", "C13.md", "C13.nil", "C13.end"),
 				gjf("C13.hist.n4.emptynames", "VerifC13", 14, "C13.add", "C13.fn", "C13.idem", "C13.end"),
 			},
-			Bounds: "sequential histories of N steps (quick 4, thorough 5) plus a final operation on every live tree, over at most two live trees: Add on any node of any tree, creation of the second tree, an unrelated From-Markdown call, a From-Root operation (one kind per history: text, callback walk, iterator walk, JSON) executed twice in a row; names are opaque single path elements, in a second job each name may also be the empty string (NewRoot(\"\")/Add(\"\") are legal). Outside: histories split across goroutines (no memory model), mkdir/verify as history steps, longer histories.",
+			Bounds: "sequential histories of N steps (quick 4, thorough 5) plus a final operation on every live tree, over at most two live trees: Add on any node of any tree, creation of the second tree, an unrelated From-Markdown call, a From-Root operation (one kind per history: text, callback walk, iterator walk, JSON) executed twice in a row; names are opaque single path elements, in a second job each name may also be the empty string (NewRoot(\"\")/Add(\"\") are legal). Concurrent use (VerifC13Conc): two goroutines run one library call each at the same time on inputs of their own -- 8 kinds each (From-Markdown text on both simple routes, walk, massive text, dry-run; From-Root text, custom-branch text and walk, each building its tree first), one arbitrary name byte each; real bufio.Scanner / strings.Reader / parser, a model of sync.Pool; write-yield schedules (and LIFO, 8 pseudo-random ones in the thorough tier): each result equals the call's result when run alone, and the happens-before detector finds no pair of unsynchronised conflicting accesses in library code (which does not depend on the schedule explored). Outside: more than two concurrent calls, mkdir/verify as concurrent or history steps, longer histories.",
 			Assume: append([]string{parseContract, pathContract, encStub}, commonAssume...),
 		},
 		{
@@ -192,7 +196,7 @@ func allChecksRaw() []*Check {
 		},
 		{
 			ID:    "C15",
-			Files: []string{"markdown/lparse.go", "gtree/common.go", "gtree/c15.go"},
+			Files: []string{"markdown/lparse.go", "gtree/common.go", "gtree/c15.go", "gtree/lscan.go"},
 			Quick: []Job{
 				{Name: "C15.LParse.2", Pkg: "markdown", Entry: "VerifLParse", N: 2, RealParse: true, Expect: []string{"LP.accept", "LP.hierarchy", "LP.text", "LP.next", "LP.end"}},
 				{Name: "C15.LHeading.2", Pkg: "markdown", Entry: "VerifLHeading", N: 2, RealParse: true, Expect: []string{"LH.accept", "LH.root", "LH.text", "LH.next"}},
@@ -200,8 +204,14 @@ func allChecksRaw() []*Check {
 				{Name: "C15.LAny.3", Pkg: "markdown", Entry: "VerifLAny", N: 3, RealParse: true, Expect: []string{"LA.oneof", "LA.hierarchy", "LA.text", "LA.errclass"}},
 				{Name: "C15.same.3", Pkg: "gtree", Entry: "VerifC15Same", N: 3, RealParse: true, Expect: []string{"C15.canon.nil", "C15.spelling.nil", "C15.same"}},
 				{Name: "C15.same.sym2", Pkg: "gtree", Entry: "VerifC15Same", N: 102, RealParse: true, Expect: []string{"C15.canon.nil", "C15.spelling.nil", "C15.same"}},
+				{Name: "C15.LScan.5", Pkg: "gtree", Entry: "VerifLScan", N: 5, RealParse: true, RealScan: true, Expect: []string{"LS.err", "LS.lines", "LS.end"}},
+				{Name: "C15.lines.3", Pkg: "gtree", Entry: "VerifC15Lines", N: 3, RealParse: true, RealScan: true, Expect: []string{"C15.lines.nil/text", "C15.lines.same/text", "C15.lines.same/noiter", "C15.lines.same/json", "C15.lines.same/dryrun", "C15.lines.end"}},
+				{Name: "C15.lines.massive3", Pkg: "gtree", Entry: "VerifC15Lines", N: 13, RealParse: true, RealScan: true, Expect: []string{"C15.lines.nil/massive", "C15.lines.same/massive", "C15.lines.noleak", "C15.lines.end"}},
 			},
 			Thorough: []Job{
+				{Name: "C15.LScan.7", Pkg: "gtree", Entry: "VerifLScan", N: 7, RealParse: true, RealScan: true, Expect: []string{"LS.err", "LS.lines", "LS.end"}},
+				{Name: "C15.lines.4", Pkg: "gtree", Entry: "VerifC15Lines", N: 4, RealParse: true, RealScan: true, Expect: []string{"C15.lines.nil/text", "C15.lines.same/text", "C15.lines.same/noiter", "C15.lines.same/json", "C15.lines.same/dryrun", "C15.lines.end"}},
+				{Name: "C15.lines.massive4", Pkg: "gtree", Entry: "VerifC15Lines", N: 14, RealParse: true, RealScan: true, Expect: []string{"C15.lines.nil/massive", "C15.lines.same/massive", "C15.lines.noleak", "C15.lines.end"}},
 				{Name: "C15.LParse.3.full", Pkg: "markdown", Entry: "VerifLParse", N: 103, RealParse: true, Expect: []string{"LP.accept", "LP.hierarchy", "LP.text", "LP.next", "LP.end"}},
 				{Name: "C15.LParse.2.allbytes", Pkg: "markdown", Entry: "VerifLParse", N: 12, RealParse: true, Expect: []string{"LP.accept", "LP.hierarchy", "LP.text", "LP.next", "LP.end"}},
 				{Name: "C15.LHeading.3", Pkg: "markdown", Entry: "VerifLHeading", N: 3, RealParse: true, Expect: []string{"LH.accept", "LH.root", "LH.text", "LH.next"}},
@@ -211,7 +221,7 @@ func allChecksRaw() []*Check {
 				{Name: "C15.same.blank3", Pkg: "gtree", Entry: "VerifC15Same", N: 13, RealParse: true, Expect: []string{"C15.canon.nil", "C15.spelling.nil", "C15.same"}},
 				{Name: "C15.same.sym2", Pkg: "gtree", Entry: "VerifC15Same", N: 102, RealParse: true, Expect: []string{"C15.canon.nil", "C15.spelling.nil", "C15.same"}},
 			},
-			Bounds: "L-parse (real Parser.Parse, one inductive step from every state an accepted prefix can leave: fresh / after a root / after root+child (unit learnt) / after root+child+root, each with and without a leading heading): notation = indent char space|tab x unit 1..4 x bullet -,*,+ per row x # roots or not; row depth 0..3; names of 2 (quick) / 3 (thorough) arbitrary ASCII bytes, 2 bytes over all 256 values (thorough); headings #..### with/without the space; malformation classes no-bullet, empty text, indentation not a multiple of the unit, tabs and spaces mixed within one row, a row indented with the other character once the document's character is known (also after a new root), whitespace-only; arbitrary rows of 3/4 bytes (result/err exclusive, text non-empty). End to end (real parser + real tree code, text output): forests of 3 (quick) / 4 (thorough) rows, canonical spelling vs every member of the notation family, with a blank row at any position (thorough), with the first byte of every name symbolic for 2 rows. CRLF and the final newline are the scanner's contract (trusted). Assumed: heading names have no leading/trailing blanks and no leading '#'. Tree-level insensitivity to blank rows: C01; the splitter (massive mode): C10.",
+			Bounds: "L-parse (real Parser.Parse, one inductive step from every state an accepted prefix can leave: fresh / after a root / after root+child (unit learnt) / after root+child+root, each with and without a leading heading): notation = indent char space|tab x unit 1..4 x bullet -,*,+ per row x # roots or not; row depth 0..3; names of 2 (quick) / 3 (thorough) arbitrary ASCII bytes, 2 bytes over all 256 values (thorough); headings #..### with/without the space; malformation classes no-bullet, empty text, indentation not a multiple of the unit, tabs and spaces mixed within one row, a row indented with the other character once the document's character is known (also after a new root), whitespace-only; arbitrary rows of 3/4 bytes (result/err exclusive, text non-empty). End to end (real parser + real tree code, text output): forests of 3 (quick) / 4 (thorough) rows, canonical spelling vs every member of the notation family, with a blank row at any position (thorough), with the first byte of every name symbolic for 2 rows. L-scan (real bufio.Scanner, bufio.ScanLines and strings.Reader from std's SSA): documents of 5 (quick) / 7 (thorough) arbitrary bytes over all 256 values are split exactly as the line contract of the tree-level harnesses says (split at LF, one trailing CR dropped, unterminated last line delivered iff non-empty); end to end with the real scanner: forests of 3/4 rows with LF or CRLF per row, with/without the last terminator, with 0..2 empty lines appended, text (both routes), JSON, dry-run and massive-mode text give byte-identical results. Assumed: heading names have no leading/trailing blanks and no leading '#'. Tree-level insensitivity to blank rows: C01; the splitter (massive mode): C10.",
 			Assume: append([]string{"real std strings code executed on symbolic bytes (leaf intrinsics: bytealg.IndexByteString, CountString, MakeNoZero; 256-entry tables as ite chains)"}, commonAssume...),
 		},
 		{
